@@ -305,7 +305,11 @@ def _state(d, spot):
     lm = d.log_moneyness().double()
     ttm = d.time_to_maturity().double()
     vol = d.ul().volatility.double()
+    _STATE_MAX[0] = d.max_log_moneyness().double()
     return lm, ttm, vol
+
+
+_STATE_MAX = [None]
 
 
 def _cause(mask, lm, ttm, vol, kind=None):
@@ -321,7 +325,11 @@ def _cause(mask, lm, ttm, vol, kind=None):
         return ("far_from_strike" if bool((lm.abs()[mask] > 0.5).any()) else "ordinary"), False
     zv = (vol == 0)[mask]
     zt = (ttm == 0)[mask]
-    atm = (lm == 0)[mask]
+    if kind == "LookbackOption" and _STATE_MAX[0] is not None and _STATE_MAX[0].shape == lm.shape:
+        # the kink of the lookback payoff is at spot == running maximum: gamma is infinite there in the zero-vol limit
+        atm = (lm == _STATE_MAX[0])[mask]
+    else:
+        atm = (lm == 0)[mask]
     if bool((atm & (zv | zt)).all()):
         return "singular", True   # spot exactly on the strike with zero volatility/time: the limit itself is infinite/undefined
     if bool(((zv | zt))[~(atm & (zv | zt))].all()):
@@ -354,7 +362,8 @@ def diagnose(d, kind, model, spot, hedger_cols_only=True):
             cause, singular = _cause(bad, lm, ttm, vol, kind)
             return "%s.%s@%s" % (type(m).__name__, meth, cause), singular
     # the module methods are finite on the state: the defect is in the hedging model / band itself
-    lmz = (lm[:, : T - 1] == 0) & ((vol[:, : T - 1] == 0) | (ttm[:, : T - 1] == 0))
+    kink = (lm == _STATE_MAX[0]) if (kind == "LookbackOption" and _STATE_MAX[0] is not None) else (lm == 0)
+    lmz = kink[:, : T - 1] & ((vol[:, : T - 1] == 0) | (ttm[:, : T - 1] == 0))
     if bool(lmz.any()) and kind != "AmericanBinaryOption":
         return "%s_model@singular" % model, True
     zero = bool(((vol[:, : T - 1] == 0)).any())
